@@ -122,6 +122,6 @@ def mut_self():
     `fn f(self, ..) { let mut this = self; BODY[self := this] }` (pure renaming)."""
     r = 'R22-mut-self-receiver'
     return [('(mut self', '(self', 1, r),
-            (re.compile(r'(/\*@SPEC@\*/\{)'), r'\1 let mut this = self;', 1, r),
+            (re.compile(r'(/\*@SPEC@\*/\{)'), r'\1 let ghost self0 = self; let mut this = self;', 1, r),
             (re.compile(r'\bself\.'), 'this.', None, r),
-            (re.compile(r'\n(\s+)self\n'), r'\n\1this\n', 1, r)]
+            (re.compile(r'\n(\s+)self\n'), r'\n\1this\n', None, r)]
